@@ -603,7 +603,7 @@ def ses (cfg : Cfg) (n : Nat) (s e t : Option Int) : Option SES :=
 def sliceIdx (cfg : Cfg) (n : Nat) (s e t : Option Int) : List Int :=
   match ses cfg n s e t with
   | none => []
-  | some b => Get.lastIdx (n + 1) b
+  | some b => Get.lastIdx (max n 1) b    -- (an empty array can still make one round with `locStartClamp`)
 
 /-- a located element; an index that is not in the array (possible with `locStartClamp` on an empty
 array) is reported in the last position without a bounds test -/
